@@ -68,7 +68,7 @@ class C14(Prop):
         with hta.CaseDir("c14") as d:
             ta = write_and_load(case, d)
             req = [r for r in case["req"] if r in ta.t.traces]
-            obs = {"prop": "C14", "err": "", "ranks": [], "minTs": 0, "blockedErr": ""}
+            obs = {"prop": "C14", "err": "", "ranks": [], "minTs": 0, "blockedErr": "", "summaryErr": ""}
             rows = {r: rows_full(ta, r) for r in req}
             try:
                 qs = ta.get_queue_length_time_series(ranks=req)
@@ -93,6 +93,25 @@ class C14(Prop):
                                     blocked[int(t[0])].append({"m": m, "stream": hta.ival(t[1]), "dur": hta.ival(t[2])})
                 except Exception as ex:
                     obs["blockedErr"] = hta.exc_str(ex)
+                # beyond the listed property: per-key summaries (count / min / max / mean) of the two series
+                qsum: Dict[int, List[Dict[str, Any]]] = {r: [] for r in req}
+                bwsum: Dict[int, List[Dict[str, Any]]] = {r: [] for r in req}
+                obs["summaryErr"] = ""
+                try:
+                    sq = ta.get_queue_length_summary(ranks=req)
+                    if sq is not None:
+                        for (rk_, key), row in sq["queue_length"].iterrows():
+                            if int(rk_) in qsum:
+                                qsum[int(rk_)].append({"key": hta.ival(key), "count": hta.ival(row["count"]), "min": clip(hta.ival(row["min"])),
+                                                       "max": clip(hta.ival(row["max"])), "total": hta.scaled(row["mean"] * row["count"], 1)})
+                    sb = ta.get_memory_bw_summary(ranks=req)
+                    if sb is not None:
+                        for (rk_, key), row in sb["memory_bw_gbps"].iterrows():
+                            if int(rk_) in bwsum:
+                                bwsum[int(rk_)].append({"key": str(key), "count": hta.ival(row["count"]), "min": hta.scaled(row["min"], 4096),
+                                                        "max": hta.scaled(row["max"], 4096), "total": hta.scaled(row["mean"] * row["count"], 4096)})
+                except Exception as ex:
+                    obs["summaryErr"] = hta.exc_str(ex)
                 ta.generate_trace_with_counters(ranks=req)
                 base = min(int(e["ts"]) for r in case["ranks"] for e in r["events"] if "ts" in e)
                 obs["minTs"] = hta.ival(ta.t.min_ts) - base
@@ -111,7 +130,8 @@ class C14(Prop):
                                 ceq.append({"ts": hta.ival(e["ts"]) - base, "pid": hta.ival(e["pid"]), "sid": hta.ival(e["id"]), "val": clip(hta.ival(val)), "name": e["name"]})
                             else:
                                 cebw.append({"ts": hta.ival(e["ts"]) - base, "pid": hta.ival(e["pid"]), "sid": -1, "val": hta.scaled(val, 4096), "name": e["name"]})
-                    obs["ranks"].append({"rank": r, "file": file_entries(case, r), "rows": rows[r], "q": qser[r], "bw": bwser[r], "ceq": ceq, "cebw": cebw, "blocked": blocked[r]})
+                    obs["ranks"].append({"rank": r, "file": file_entries(case, r), "rows": rows[r], "q": qser[r], "bw": bwser[r], "ceq": ceq, "cebw": cebw, "blocked": blocked[r],
+                                         "qsum": qsum[r], "bwsum": bwsum[r]})
             except Exception as ex:
                 obs["err"] = hta.exc_str(ex)
             return obs
